@@ -247,6 +247,7 @@ type World struct {
 
 	start        time.Time
 	newTxDone    int
+	lastObs      int // observation lines (broadcasts, timer calls, decisions) produced by the last event
 	lagNotify    int // id+1 of the node whose OnNewTransaction notification is still pending (0: none)
 	lagSeen      bool // a message has reached that node since the transaction appeared (the notification was outrun)
 	lastNewTx    time.Time
@@ -911,6 +912,16 @@ func (w *World) find(dst int, h H, remove bool) *Payload {
 // apply executes one event. It panics with harnessFault if the event is not enabled (replay divergence).
 func (w *World) apply(e Event) {
 	curWorld = w
+	obs0 := 0
+	for _, o := range w.obs {
+		obs0 += len(o)
+	}
+	defer func() {
+		w.lastObs = -obs0
+		for _, o := range w.obs {
+			w.lastObs += len(o)
+		}
+	}()
 	w.steps++
 	w.hist = append(w.hist, e)
 	n := w.nodes[e.N]
